@@ -329,7 +329,39 @@ func shrinkInteraction(res *e1Result, cases []*e1Case, name, phase, out string) 
 	return cur, phase + "-together", out
 }
 
+// histProps are checked a second time on the code goderive leaves behind when
+// it regenerates over the output for an older version of the sources (the
+// harness only runs again when those bytes differ from the from-scratch ones).
+var histProps = map[string]bool{"C02": true, "C03": true, "C04": true, "C05": true, "C06": true}
+
+var structOpenRe = regexp.MustCompile(`^type [A-Za-z0-9_]+ struct \{$`)
+
+// olderVersion cuts every multi-line struct declaration down to its first field.
+func olderVersion(src string) string {
+	var out []string
+	in, kept := false, false
+	for _, l := range strings.Split(src, "\n") {
+		switch {
+		case !in && structOpenRe.MatchString(l):
+			in, kept = true, false
+			out = append(out, l)
+		case in && l == "}":
+			in = false
+			out = append(out, l)
+		case in:
+			if t := strings.TrimSpace(l); !kept && t != "" && !strings.HasPrefix(t, "//") {
+				kept = true
+				out = append(out, l)
+			}
+		default:
+			out = append(out, l)
+		}
+	}
+	return strings.Join(out, "\n")
+}
+
 type e1Result struct {
+	HistSame, HistDiffer int
 	Records    []map[string]interface{} // decoded harness records
 	Failures   []e1Failure
 	GenRuns    int
@@ -345,11 +377,27 @@ type stage2Hook func(dir string, cases []*e1Case, env []string, recs []map[strin
 
 func runBatchPipeline(b *e1Batch, prop string, env []string, runs int, hooks ...stage2Hook) *e1Result {
 	res := &e1Result{}
+	hist := false
+	var scratchBytes string
 	var rec func(cases []*e1Case, name string)
 	rec = func(cases []*e1Case, name string) {
 		dir := filepath.Join(scratchDir, "e1", name)
 		files := scenarioFiles(cases, "")
-		writeScenario(dir, files)
+		if hist {
+			// regeneration: derived.gen.go first holds the output for an older version of
+			// the sources (every multi-line struct cut down to its first field)
+			old := map[string]string{}
+			for k, v := range files {
+				old[k] = v
+			}
+			old["p/types.go"] = olderVersion(files["p/types.go"])
+			writeScenario(dir, old)
+			run(dir, 3*time.Minute, nil, buildGoderive(), "./p")
+			res.GenRuns++
+			writeFile(filepath.Join(dir, "p/types.go"), files["p/types.go"])
+		} else {
+			writeScenario(dir, files)
+		}
 		defer os.RemoveAll(dir)
 		fail := func(phase, out string) {
 			if len(cases) == 1 {
@@ -385,6 +433,18 @@ func runBatchPipeline(b *e1Batch, prop string, env []string, runs int, hooks ...
 			}
 			fail("generate", fmt.Sprintf("goderive exit %d\n%s", g.Exit, g.Stderr))
 			return
+		}
+		if name == b.Name {
+			cur := readFileOr(filepath.Join(dir, "p/derived.gen.go"), "")
+			if !hist {
+				scratchBytes = cur
+			} else if cur == scratchBytes {
+				// the same bytes were already compiled and explored
+				res.HistSame++
+				return
+			} else {
+				res.HistDiffer++
+			}
 		}
 		// type-check the scenario package alone first (no link): cheap bisection steps
 		pc := run(dir, 10*time.Minute, nil, "go", "build", "-gcflags=-e", "./p")
@@ -464,6 +524,10 @@ func runBatchPipeline(b *e1Batch, prop string, env []string, runs int, hooks ...
 		}
 	}
 	rec(b.Cases, b.Name)
+	if histProps[prop] && len(res.Failures) == 0 && len(b.Cases) > 0 {
+		hist = true
+		rec(b.Cases, b.Name)
+	}
 	return res
 }
 
@@ -493,6 +557,8 @@ func runE1(cases []*e1Case, prop string, batchSize int, env []string, runs int, 
 		total.Records = append(total.Records, r.Records...)
 		total.Failures = append(total.Failures, r.Failures...)
 		total.GenRuns += r.GenRuns
+		total.HistSame += r.HistSame
+		total.HistDiffer += r.HistDiffer
 		total.Builds += r.Builds
 		total.HarnessErr = append(total.HarnessErr, r.HarnessErr...)
 		done++
